@@ -138,6 +138,8 @@ def strat_state(draw, tier):
     vcpu["app_name"] = draw(st.text(alphabet="abcXYZ_09", max_size=16))
     return {"w": w, "h": h, "default": default, "chips": chips,
             "silent": silent, "buffer": draw(st.sampled_from([256, 128])),
+            "silent_how": draw(st.sampled_from(["timeout", "timeout",
+                                                "code"])),
             "version": draw(st.sampled_from(
                 [[1, 33], [1, 30], [3, 0], "2.1.0", "3.0.0-dev",
                  "10.20.30+build5"])),
@@ -175,8 +177,11 @@ def build_model(case):
         c.eth_up = s["eth_up"]
         c.ip = tuple(s["ip"])
         c.local_eth = tuple(s["local_eth"])
-    for x, y in case["silent"]:
+    for i, (x, y) in enumerate(case["silent"]):
         m.chips[(x, y)].silent = True
+        if case.get("silent_how") == "code":
+            # not silence but an error code sent on the chip's behalf
+            m.chips[(x, y)].no_reply_code = [0x8e, 0x8f, 0x8d][i % 3]
     for (x, y), c in m.chips.items():
         c.sync_system_memory(router=False, p2p=(x, y) == (0, 0))
     return m, spec
